@@ -370,6 +370,15 @@ func cmdCheck(args []string) int {
 	if len(violations) > 0 {
 		return 1
 	}
+	if thorough && os.Getenv("GOVC_NO_SELFTEST") == "" {
+		// thorough tier: the property's must-fail mutants (scratch copies, removed afterwards)
+		// must each be reported; a mutant that is no longer caught means the check has become
+		// vacuous or too weak - that is a broken check, not a pass
+		if rc := cmdSelftest([]string{"--property", prop, "-j", "4"}); rc != 0 {
+			fmt.Printf("CHECK-ERROR property=%s self-test corpus: a must-fail mutant was not reported\n", prop)
+			return 2
+		}
+	}
 	return 0
 }
 
